@@ -295,6 +295,10 @@ int set_sip_nsip(struct msa* msa)
         }
 
         msa->num_profiles = (msa->numseq << 1 )-1;
+        if(msa->num_profiles < 1){
+                msa->num_profiles = 0;
+                ERROR_MSG("No sequences found.");
+        }
 
         MMALLOC(msa->sip,sizeof(int*)* msa->num_profiles);
         MMALLOC(msa->nsip,sizeof(int)* msa->num_profiles);
